@@ -136,6 +136,66 @@ def r04_2(rep: Report, idx: Index) -> None:
         raise AnalysisError(f'R04.2: only {n} byte-string fields found')
 
 
+def _invalidate_paths(rep: Report, rid: str, inv: ast.FunctionDef) -> None:
+    """every path of _invalidate either clears the cache and tells the parent, or implies there is nothing
+    to clear / nobody to tell: a path that leaves the cache alone entails `self._encoded is None` (a cached
+    encoding may be EMPTY - b'' for a box without payload - so a truthiness test is not enough), a path
+    that clears without recursing entails that there is no parent"""
+    from ..pathcond import PathCond, entails as pc_entails, f_not, f_or, show as pc_show
+    from ..flow import Disjunctive
+    construct = f'{MP4}::Mp4Atom._invalidate'
+
+    def upd(st, facts):
+        facts = set(facts)
+        if isinstance(st, (ast.Assign, ast.AnnAssign)):
+            tgs = st.targets if isinstance(st, ast.Assign) else [st.target]
+            v = st.value
+            if any(norm(t) == 'self._encoded' for t in tgs) and isinstance(v, ast.Constant) and v.value is None:
+                facts.add('cleared')
+            for t in tgs:
+                if isinstance(t, ast.Name) and v is not None and norm(v) == 'self.parent':
+                    facts.add(f'parent:{t.id}')
+        for c in ast.walk(st):
+            if isinstance(c, ast.Call) and isinstance(c.func, ast.Attribute) and c.func.attr == '_invalidate':
+                recv = norm(c.func.value)
+                if recv == 'self.parent' or f'parent:{recv}' in facts:
+                    facts.add('recursed')
+        return facts
+    exits: list = []
+
+    def on_exit(kind, st, states):
+        if kind in ('return', 'fall'):
+            exits.extend((st, x) for x in states)
+    Flow(Disjunctive(PathCond(upd=upd), cap=128), on_exit=on_exit).run(inv, [PathCond.initial()])
+    if not exits:
+        raise AnalysisError('Mp4Atom._invalidate: no normal exit')
+    nothing_cached = ('atom', 'self._encoded is None')
+    bad = None
+    n_clear = 0
+    for st, x in exits:
+        facts = x[2]
+        if 'cleared' not in facts:
+            if pc_entails(x[0], nothing_cached) is not True:
+                bad = (st, f'a path leaves the cached encoding in place although it need not be None '
+                           f'(path condition: {pc_show(x[0])[:120]}): a box whose cached payload is empty (b\'\') '
+                           'keeps it after a field assignment, the edit is lost on encode')
+        else:
+            n_clear += 1
+            if 'recursed' not in facts:
+                aliases = [f.split(':', 1)[1] for f in facts if f.startswith('parent:')]
+                goal = f_or(f_not(('atom', 'self.parent')), ('atom', 'self.parent is None'),
+                            *[g for a in aliases for g in (f_not(('atom', a)), ('atom', f'{a} is None'))])
+                if pc_entails(x[0], goal) is not True:
+                    bad = (st, 'a path clears the cached encoding without invalidating the parent, whose own cached '
+                               'encoding still contains the old bytes of this box')
+    if n_clear == 0:
+        bad = (None, '_invalidate never clears `self._encoded`')
+    if bad is None:
+        rep.ok(rid, construct, 'clears and recurses', f'{len(exits)} path(s); skipping implies `_encoded is None`')
+    else:
+        rep.fail(rid, construct, 'clears and recurses', bad[1], bad[0] or inv)
+
+
 def r04_3(rep: Report) -> None:
     rid = 'R04.3'
     tree = rep.repo.tree(MP4)
@@ -174,12 +234,7 @@ def r04_3(rep: Report) -> None:
             rep.fail(rid, construct, 'size delta',
                      f'{name} does not propagate {sign} with update_size()', fn)
     inv = need(find_func(cls, '_invalidate'), 'Mp4Atom._invalidate')
-    t = norm(inv)
-    if 'self._encoded = None' in t and 'self.parent._invalidate()' in t:
-        rep.ok(rid, f'{MP4}::Mp4Atom._invalidate', 'clears and recurses')
-    else:
-        rep.fail(rid, f'{MP4}::Mp4Atom._invalidate', 'clears and recurses',
-                 '_invalidate does not clear _encoded and recurse to the parent', inv)
+    _invalidate_paths(rep, rid, inv)
     sa = need(find_func(cls, '__setattr__'), 'Mp4Atom.__setattr__')
     ok = False
     for n in ast.walk(sa):
